@@ -3,7 +3,7 @@
 From Coq Require Import List ZArith Bool Arith Lia.
 From Verif Require Import lib.Wire c03.Int64 c03.Model c03.Spec c03.Witness
      c03.Proofs_Int64 c03.Proofs_Base c03.Proofs_Limiter c03.Proofs_Reach c03.Proofs_Link
-     c03.Proofs_OpsMem c03.Proofs_Hist c03.Proofs_Mon.
+     c03.Proofs_OpsMem c03.Proofs_Hist c03.Proofs_Mon c03.Proofs_Link2 c03.Proofs_Hist2 c03.Proofs_Mon2.
 Import ListNotations.
 Local Open Scope Z_scope.
 
@@ -100,63 +100,76 @@ Proof. exact limiter_history_inv. Qed.
 Print Assumptions c03_limiter_history.
 
 (* ---- history level: refinement to the abstract holders specification ----------------------
-   _partial = proved for histories of OpenConnection (any endpoint, incl. the
-   allow-list retry), OpenStream, ReserveMemory / ReleaseMemory on connections,
-   streams, nested spans and View scopes, BeginSpan, Done (repeated, on closed
-   owners); the hypothesis [wf_hist] / [core_shape] excludes SetPeer,
-   SetProtocol, SetService and gc (those are covered by the correspondence).
-   [wf_hist] is the Prop form of what callers must respect (Spec.caller_ok,
-   Spec.no_overflow), [run_a] the abstract state the monitor computes. *)
+   Proved for every finite history of OpenConnection (any endpoint, incl. the
+   allow-list retry), SetPeer, OpenStream, SetProtocol, SetService,
+   ReserveMemory / ReleaseMemory on connections, streams, nested spans and View
+   scopes, BeginSpan, Done (repeated, on closed owners), and for every
+   configuration with non-negative limits.
+   _partial: the hypothesis [wf_hist2] / [covered_run] (decidable on the trace)
+   is (a) what callers must respect (Spec.caller_ok, Spec.no_overflow), (b) no
+   gc step, (c) [no_transfer]: SetPeer is never called with a peer that forces
+   an allow-listed connection back to the standard scopes
+   (transferAllowedToStandard).  (b) and (c) are covered by the correspondence.
+   [run_a] is the abstract holder table the monitor computes. *)
 
-(* the simulation invariant holds after every such history, unbounded, for every configuration *)
+(* the simulation invariant (scope map vs holder table, and the per-connection /
+   per-stream records) holds after every such history *)
 Theorem c03_invariant_partial : forall c ops,
-  cfg_ok c -> wf_hist c (init_state c) astate0 ops ->
-  Inv c (scopes (run c (init_state c) ops)) (run_a c (init_state c) astate0 ops).
-Proof. exact history_inv. Qed.
+  cfg_ok c -> wf_hist2 c (init_state c) astate0 ops ->
+  InvL c (run c (init_state c) ops) (run_a c (init_state c) astate0 ops).
+Proof. exact history_inv2. Qed.
 Print Assumptions c03_invariant_partial.
 
 (* every scope's six counters equal the sum of what the open holders charged to it hold *)
 Theorem c03_usage_is_sum_of_holders_partial : forall c ops t,
-  cfg_ok c -> wf_hist c (init_state c) astate0 ops ->
+  cfg_ok c -> wf_hist2 c (init_state c) astate0 ops ->
   use_of (scopes (run c (init_state c) ops)) t = usage_A (run_a c (init_state c) astate0 ops) t.
-Proof. exact usage_is_sum_l. Qed.
+Proof. exact usage_is_sum2. Qed.
 Print Assumptions c03_usage_is_sum_of_holders_partial.
 
 (* never negative, never above the scope's limit; the limit of a static scope is the configured one *)
 Theorem c03_nonneg_within_limits_partial : forall c ops t sc,
-  cfg_ok c -> wf_hist c (init_state c) astate0 ops ->
+  cfg_ok c -> wf_hist2 c (init_state c) astate0 ops ->
   get (scopes (run c (init_state c) ops)) t = Some sc ->
   nonneg (s_use sc) /\ fits (s_lim sc) (s_use sc) /\ (is_handle t = false -> s_lim sc = limit_of c t).
-Proof. exact within_limits_l. Qed.
+Proof. exact within_limits2. Qed.
 Print Assumptions c03_nonneg_within_limits_partial.
 
-(* an operation that answers an error changes no counter of any scope *)
+(* an operation that answers an error changes no counter of any scope and no
+   holder: a refused reservation is undone in every scope, a refused SetPeer /
+   SetProtocol / SetService leaves the connection / stream charged exactly once,
+   to the scopes it was charged to before *)
 Theorem c03_refusal_is_noop_partial : forall c st a o t,
-  cfg_ok c -> Inv c (scopes st) a -> wf_op st a o ->
+  cfg_ok c -> InvL c st a -> wf_op2 c st a o ->
   snd (step c st o) <> 0 ->
   match o with ORelease _ _ | ODone _ => False | _ => True end ->
-  use_of (scopes (fst (step c st o))) t = use_of (scopes st) t.
-Proof. exact refusal_is_noop_l. Qed.
+  use_of (scopes (fst (step c st o))) t = use_of (scopes st) t /\
+  holders (anext c st a o) = holders a.
+Proof. exact refusal_is_noop2. Qed.
 Print Assumptions c03_refusal_is_noop_partial.
 
 (* when every holder is closed or holds nothing, every scope reads zero *)
 Theorem c03_release_all_zero_partial : forall c ops t,
-  cfg_ok c -> wf_hist c (init_state c) astate0 ops ->
+  cfg_ok c -> wf_hist2 c (init_state c) astate0 ops ->
   (forall y h, In (y, h) (holders (run_a c (init_state c) astate0 ops)) -> h_dead h = true \/ h_own h = stat0) ->
   use_of (scopes (run c (init_state c) ops)) t = stat0.
-Proof. exact release_all_zero_l. Qed.
+Proof. exact release_all_zero2. Qed.
 Print Assumptions c03_release_all_zero_partial.
 
 (* THE monitor that is run on the implementation's traces (its core: answer
    legality, usage == sum of holders, signs, limits) accepts every trace of the
-   model, for every well-formed configuration and every history in which the
-   callers behave *)
+   model *)
 Theorem c03_trace_holds_partial : forall c ops,
-  config_wf c = true -> forallb core_shape ops = true ->
-  callers_run c astate0 [] 0 (model_trace c (init_state c) ops) = None ->
+  config_wf c = true ->
+  covered_run c astate0 [] (model_trace c (init_state c) ops) = true ->
   mon_run_gen false c astate0 [] 0 (model_trace c (init_state c) ops) = [].
-Proof. exact monitor_accepts_core. Qed.
+Proof. exact monitor_accepts2. Qed.
 Print Assumptions c03_trace_holds_partial.
+
+(* the hypothesis is satisfiable by a history through every covered operation *)
+Example covered_nonvacuous :
+  covered_run tour_cfg astate0 [] (model_trace tour_cfg (init_state tour_cfg) (filter (fun o => match o with OGC => false | _ => true end) tour_ops)) = true.
+Proof. vm_compute. reflexivity. Qed.
 
 (* ---- regression: histories that refuted the full statement before the repairs ----------- *)
 Definition full_statement : Prop :=
